@@ -399,6 +399,11 @@ func runTruncAllPaths(rc *RuleCtx) {
 										continue
 									}
 								}
+								if c, ok := r.(*ssa.Call); ok {
+									if bi, ok := c.Call.Value.(*ssa.Builtin); ok && (bi.Name() == "len" || bi.Name() == "cap") {
+										continue // asking for the size is not replaying the contents
+									}
+								}
 								if _, isDbg := r.(*ssa.DebugRef); !isDbg {
 									reads = true
 								}
@@ -1332,6 +1337,253 @@ func runWireDispatch(rc *RuleCtx) {
 					}
 					return true
 				})
+			}
+		}
+	}
+}
+
+func init() {
+	register(&Rule{
+		Name:     "LAZYSIZE",
+		Doc:      "in proto/generic, where an element index is compared with the `size` of a list iterator to reject it (`k >= it.size`), the comparison is conjoined with `it.size > 0`: a protobuf list node only knows its element count once it has been counted (a node from Field/FieldByName or a lazy Load has size 0), and the sibling lookups treat 0 as `unknown` — without the conjunct every index is rejected on such a node",
+		Configs:  "NP",
+		Floor:    map[string]int{"N": 2, "P": 2},
+		Controls: 1,
+		Run:      runLazySize,
+	})
+}
+
+func runLazySize(rc *RuleCtx) {
+	isSize := func(v ssa.Value) (ssa.Value, bool) {
+		for {
+			if c, ok := v.(*ssa.Convert); ok {
+				v = c.X
+				continue
+			}
+			break
+		}
+		switch x := v.(type) {
+		case *ssa.UnOp:
+			if x.Op == token.MUL {
+				if owner, n, ok := fieldNameOf(x.X); ok && n == "size" && strings.HasSuffix(typeShort(owner), "Iterator") {
+					return x.X.(*ssa.FieldAddr).X, true
+				}
+			}
+		case *ssa.Field:
+			if owner, n, ok := fieldNameOf(x); ok && n == "size" && strings.HasSuffix(typeShort(owner), "Iterator") {
+				return x.X, true
+			}
+		}
+		return nil, false
+	}
+	for _, fn := range rc.W.Funcs {
+		if fn.Blocks == nil || pkgRel(fn) != "proto/generic" {
+			continue
+		}
+		for _, b := range fn.Blocks {
+			for _, ins := range b.Instrs {
+				bo, ok := ins.(*ssa.BinOp)
+				if !ok || (bo.Op != token.GEQ && bo.Op != token.GTR && bo.Op != token.LSS && bo.Op != token.LEQ) {
+					continue
+				}
+				var other ssa.Value
+				var base ssa.Value
+				if bs, ok := isSize(bo.Y); ok {
+					other, base = bo.X, bs
+				} else if bs, ok := isSize(bo.X); ok {
+					other, base = bo.Y, bs
+				} else {
+					continue
+				}
+				if k, isC := constInt(other); isC && k == 0 {
+					continue // the `size > 0` conjunct itself
+				}
+				_ = base
+				rc.Examined++
+				good := false
+				for _, cd := range controllingIfs(b) {
+					k, neg := condKey(cd.cond)
+					o, ok := k.(*ssa.BinOp)
+					if !ok {
+						continue
+					}
+					truth := cd.val != neg
+					if _, ok := isSize(o.X); ok {
+						if kc, isC := constInt(o.Y); isC && kc == 0 && ((o.Op == token.GTR && truth) || (o.Op == token.LEQ && !truth) || (o.Op == token.NEQ && truth) || (o.Op == token.EQL && !truth)) {
+							good = true
+						}
+					}
+				}
+				rc.verdict(good, fn, "index vs iterator size", bo.Pos(), map[bool]string{
+					true:  "the comparison with the element count is made only where the count is known (size > 0)",
+					false: "the index is compared with the iterator's size without `size > 0`: on a list node that has not been counted yet (size 0) every index is rejected"}[good], true)
+			}
+		}
+	}
+}
+
+func init() {
+	register(&Rule{
+		Name:     "ONESHOTFLAG",
+		Doc:      "a bool parameter that a loop both tests and clears (`if … && flag { …; flag = false }`) is cleared on EVERY path through the branch it guards: the flag marks a one-time condition (the innermost list of the path is packed), and a path that leaves it set makes the next iteration apply the one-time action again (the length prefix of an outer list element is re-written twice)",
+		Configs:  "NP",
+		Floor:    map[string]int{"N": 1, "P": 1},
+		Controls: 1,
+		Run:      runOneShotFlag,
+	})
+}
+
+func runOneShotFlag(rc *RuleCtx) {
+	for _, fn := range rc.W.Funcs {
+		if fn.Blocks == nil || pkgRel(fn) == "" {
+			continue
+		}
+		for _, lp := range naturalLoops(fn) {
+			for _, ins := range lp.head.Instrs {
+				ph, ok := ins.(*ssa.Phi)
+				if !ok {
+					break
+				}
+				if bt, ok := ph.Type().Underlying().(*types.Basic); !ok || bt.Kind() != types.Bool {
+					continue
+				}
+				// enters the loop as a parameter, and is assigned false somewhere inside
+				fromParam, cleared := false, false
+				for i, e := range ph.Edges {
+					if !lp.blocks[lp.head.Preds[i]] {
+						if _, isP := e.(*ssa.Parameter); isP {
+							fromParam = true
+						}
+					}
+				}
+				var walk func(v ssa.Value, d int)
+				seen := map[ssa.Value]bool{}
+				walk = func(v ssa.Value, d int) {
+					if seen[v] || d > 6 {
+						return
+					}
+					seen[v] = true
+					if b, isC := constBool(v); isC && !b {
+						cleared = true
+					}
+					if p2, ok := v.(*ssa.Phi); ok {
+						for _, e := range p2.Edges {
+							walk(e, d+1)
+						}
+					}
+				}
+				for i, e := range ph.Edges {
+					if lp.blocks[lp.head.Preds[i]] {
+						walk(e, 0)
+					}
+				}
+				if !fromParam || !cleared {
+					continue
+				}
+				// the branch guarded by the flag
+				for b := range lp.blocks {
+					iff, ok := lastInstr(b).(*ssa.If)
+					if !ok || iff.Cond != ssa.Value(ph) {
+						continue
+					}
+					// the guarded branch: everything dominated by the true successor (it may be shared with the other
+					// disjuncts of `a || (b && flag)`, so it can have several predecessors)
+					region := map[*ssa.BasicBlock]bool{}
+					if b.Succs[0] == lp.head {
+						continue
+					}
+					for ob := range lp.blocks {
+						if b.Succs[0].Dominates(ob) {
+							region[ob] = true
+						}
+					}
+					if len(region) == 0 {
+						continue
+					}
+					rc.Examined++
+					var leak *ssa.Phi
+					for ob := range lp.blocks {
+						for _, oi := range ob.Instrs {
+							p2, ok := oi.(*ssa.Phi)
+							if !ok {
+								break
+							}
+							for i, e := range p2.Edges {
+								if e == ssa.Value(ph) && region[ob.Preds[i]] {
+									leak = p2
+								}
+							}
+						}
+					}
+					if leak != nil {
+						rc.bad(fn, "one-shot flag "+ph.Comment, firstPos(b.Succs[0]), "the flag `"+ph.Comment+"` is still set on a path that went through the branch it guards: the one-time action is repeated in a later iteration")
+					} else {
+						rc.ok(fn, "one-shot flag "+ph.Comment, firstPos(b.Succs[0]), "every path through the guarded branch clears the flag", true)
+					}
+				}
+			}
+		}
+	}
+}
+
+func init() {
+	register(&Rule{
+		Name:     "KINDCHECKED",
+		Doc:      "in the JSON→protobuf visitor (conv/j2p), every handler of a JSON scalar (OnBool, OnString, OnInt64, OnFloat64 …) writes a protobuf scalar (a Write<Kind> primitive) only under a test of the target field's kind (a comparison / switch over fieldDesc.Kind() or Type()): a handler that writes whatever the JSON token is produces bytes that do not match the tag it has just written (`{\"str\":true}` → tag of a string followed by one bool byte: malformed, nil error)",
+		Configs:  "NP",
+		Floor:    map[string]int{"N": 10, "P": 10},
+		Controls: 1,
+		Run:      runKindChecked,
+	})
+}
+
+func runKindChecked(rc *RuleCtx) {
+	isKindCall := func(v ssa.Value) bool {
+		for {
+			if c, ok := v.(*ssa.Convert); ok {
+				v = c.X
+				continue
+			}
+			break
+		}
+		c, ok := v.(*ssa.Call)
+		if !ok || c.Call.StaticCallee() == nil {
+			return false
+		}
+		switch c.Call.StaticCallee().Name() {
+		case "Kind", "Type":
+			return true
+		}
+		return false
+	}
+	for _, fn := range rc.W.Funcs {
+		if fn.Blocks == nil || pkgRel(fn) != "conv/j2p" || !(strings.HasPrefix(fn.Name(), "On") || strings.HasPrefix(fn.Name(), "zzControlOn")) {
+			continue
+		}
+		for _, b := range fn.Blocks {
+			for _, ins := range b.Instrs {
+				c, ok := ins.(*ssa.Call)
+				if !ok || c.Call.StaticCallee() == nil || pkgRel(c.Call.StaticCallee()) != "proto/binary" {
+					continue
+				}
+				n := c.Call.StaticCallee().Name()
+				if !strings.HasPrefix(n, "Write") {
+					continue
+				}
+				if _, ok := primKind(n); !ok {
+					continue
+				}
+				rc.Examined++
+				good := false
+				for _, cd := range controllingIfs(b) {
+					k, _ := condKey(cd.cond)
+					if bo, ok := k.(*ssa.BinOp); ok && (bo.Op == token.EQL || bo.Op == token.NEQ) && (isKindCall(bo.X) || isKindCall(bo.Y)) {
+						good = true
+					}
+				}
+				rc.verdict(good, fn, n, c.Pos(), map[bool]string{
+					true:  "the value is written under a test of the field's kind",
+					false: n + " is called whatever the kind of the target field: for a field of another kind the bytes do not match the tag written before them (malformed output with a nil error)"}[good], true)
 			}
 		}
 	}
